@@ -350,14 +350,42 @@ func TestC21(t *testing.T) {
 
 	openssl := toolPath("openssl")
 	dir := runDir(t, "c21")
+	// Base files for the mutation parts (also the probe that `-legacy` export works): a fixed table of
+	// configurations over a P-256 key derived from a constant and the 1024-bit RSA key.
+	var bases []*c21Export
 	if openssl != "" {
-		// probe: -legacy export must work
-		probe := &c21Export{password: "probe", key: pool[2]}
-		probe.certDER, _ = c21MakeCert(pool[2].priv, "probe", 1)
-		if err := c21RunOpenSSL(openssl, dir, probe); err != nil {
-			c.Assumption(fmt.Sprintf("openssl pkcs12 -export -legacy unusable (%v): only the KDF part runs", err))
-			openssl = ""
-		} else {
+		d := new(big.Int).SetBytes(detBytes("c21.ec", 0, 32))
+		d.Mod(d, elliptic.P256().Params().N)
+		d.Add(d, big.NewInt(1))
+		priv := &ecdsa.PrivateKey{D: d}
+		priv.Curve = elliptic.P256()
+		priv.X, priv.Y = elliptic.P256().ScalarBaseMult(d.Bytes())
+		for f := 0; f < ev.Scale(2, 4); f++ {
+			e := &c21Export{password: []string{"mutation base", "пароль", "", "x"}[f], key: c21Key{priv, "ec"}, iter: []int{2, 1, -1, 3}[f],
+				certPBE: []string{"", "NONE", "PBE-SHA1-3DES", ""}[f], keyPBE: []string{"", "PBE-SHA1-RC2-40", "", ""}[f]}
+			if f == 3 {
+				e.key = pool[2]
+			}
+			var err error
+			if e.certDER, err = c21MakeCert(e.key.priv, "c21 mutation base", 77); err != nil {
+				inconclusiveT(c, t, "x509.CreateCertificate: %v", err)
+			}
+			e.describe = fmt.Sprintf("mutation base %d: key=%s password=%q certpbe=%q keypbe=%q iter=%d", f, e.key.kind, e.password, e.certPBE, e.keyPBE, e.iter)
+			if err := c21RunOpenSSL(openssl, dir, e); err != nil {
+				if f == 0 {
+					c.Assumption(fmt.Sprintf("openssl pkcs12 -export -legacy unusable (%v): only the KDF part runs", err))
+					openssl = ""
+					break
+				}
+				inconclusiveT(c, t, "%v", err)
+			}
+			if err := c21CheckGood(e); err != nil {
+				c.Violation(err.Error(), "")
+				t.Fatalf("VF-VIOLATION: property=C21 %v [%s; pfx %x]", err, e.describe, e.pfx)
+			}
+			bases = append(bases, e)
+		}
+		if openssl != "" {
 			c.Oracle("openssl pkcs12 -export -legacy (producer): PBE-SHA1-3DES / PBE-SHA1-RC2-40 / unencrypted cert bag, HMAC-SHA1 MAC")
 		}
 	} else {
@@ -369,10 +397,10 @@ func TestC21(t *testing.T) {
 	}
 
 	// newExport draws one export configuration and runs OpenSSL.
-	newExport := func(rt *rapid.T, small bool) *c21Export {
+	newExport := func(rt *rapid.T) *c21Export {
 		e := &c21Export{}
 		e.password, e.alphabet = c21Password(rt, "password")
-		if small || uniform(rt, "keytype", 0, 1) == 0 {
+		if uniform(rt, "keytype", 0, 1) == 0 {
 			// P-256 key from a drawn scalar
 			d := new(big.Int).SetBytes(gen.RandBytes(rt, "ec.scalar", 32))
 			n := elliptic.P256().Params().N
@@ -403,9 +431,6 @@ func TestC21(t *testing.T) {
 		default:
 			e.iter = uniform(rt, "iter", 65, 4096)
 		}
-		if small {
-			e.iter = pick(rt, "iter.mut", []int{-1, 1, 2, 3})
-		}
 		if uniform(rt, "friendly", 0, 2) == 0 {
 			e.friendly = "name-" + fmt.Sprint(uniform(rt, "friendly.n", 0, 999))
 		}
@@ -420,13 +445,13 @@ func TestC21(t *testing.T) {
 	}
 
 	rapid.Check(t, func(rt *rapid.T) {
-		part := weighted(rt, "part", 45, 25, 30)
+		part := weighted(rt, "part", 40, 30, 30)
 		if openssl == "" {
 			part = 2
 		}
 		switch part {
 		case 0: // a file made by OpenSSL decodes to exactly what went in; wrong passwords are reported as such
-			e := newExport(rt, false)
+			e := newExport(rt)
 			// validate the producer and the reference KDF: the MAC must be reproducible
 			pfx, content, ok := c21ParsePFX(e.pfx)
 			bmp, _ := refkdf.BMPString(e.password)
@@ -480,11 +505,9 @@ func TestC21(t *testing.T) {
 			if c.WantSample() {
 				c.Sample(map[string]any{"op": "decode", "config": e.describe, "pfx_bytes": len(e.pfx), "wrong_password": wrong})
 			}
-		case 1: // mutated files
-			e := newExport(rt, true)
-			if err := c21CheckGood(e); err != nil {
-				fail(rt, e, err)
-			}
+		case 1: // mutated files (random single and double mutations of the base files)
+			bi := uniform(rt, "mut.base", 0, len(bases)-1)
+			e := bases[bi]
 			for i := 0; i < 12; i++ {
 				mut, m := gen.Mutate(rt, "mut", e.pfx)
 				if uniform(rt, "mut.second", 0, 3) == 0 {
@@ -494,7 +517,7 @@ func TestC21(t *testing.T) {
 				if err != nil {
 					fail(rt, e, fmt.Errorf("%v (mutation %v, mutated file %x)", err, m, mut))
 				}
-				c.Case(true, fmt.Sprintf("mut|%s|%s|%d", m.Kind, verdict, m.Pos*16/len(e.pfx)), "op=mutate:"+m.Kind, "mutated:"+verdict)
+				c.Case(true, fmt.Sprintf("mut|%d|%s|%s|%d", bi, m.Kind, verdict, m.Pos*16/len(e.pfx)), "op=mutate:"+m.Kind, "mutated:"+verdict)
 			}
 		default: // the KDF itself
 			plen := uniform(rt, "kdf.pwrunes", 0, 70)
@@ -536,33 +559,13 @@ func TestC21(t *testing.T) {
 		}
 	})
 
-	// Enumerated: every byte of one small PFX overwritten with three values (split across shards).
+	// Enumerated: every byte of the base files overwritten with five values (positions split across shards;
+	// quick walks the first base file, thorough all of them).
 	if openssl != "" {
-		d := new(big.Int).SetBytes(detBytes("c21.ec", 0, 32))
-		d.Mod(d, elliptic.P256().Params().N)
-		d.Add(d, big.NewInt(1))
-		priv := &ecdsa.PrivateKey{D: d}
-		priv.Curve = elliptic.P256()
-		priv.X, priv.Y = elliptic.P256().ScalarBaseMult(d.Bytes())
-		nFiles := ev.Scale(1, 4)
 		total := 0
-		for f := 0; f < nFiles; f++ {
-			e := &c21Export{password: []string{"mutation base", "", "пароль", "x"}[f], key: c21Key{priv, "ec"}, iter: []int{2, -1, 1, 3}[f], certPBE: []string{"", "PBE-SHA1-3DES", "NONE", ""}[f], keyPBE: []string{"", "", "PBE-SHA1-RC2-40", ""}[f]}
-			if f == 3 {
-				e.key = pool[2]
-			}
-			var err error
-			e.certDER, err = c21MakeCert(e.key.priv, "c21 mutation base", 77)
-			if err != nil {
-				inconclusiveT(c, t, "x509.CreateCertificate: %v", err)
-			}
-			if err := c21RunOpenSSL(openssl, dir, e); err != nil {
-				inconclusiveT(c, t, "%v", err)
-			}
-			e.describe = fmt.Sprintf("mutation base %d", f)
-			if err := c21CheckGood(e); err != nil {
-				c.Violation(err.Error(), "")
-				t.Fatalf("VF-VIOLATION: property=C21 %v [%s; pfx %x]", err, e.describe, e.pfx)
+		for f, e := range bases {
+			if f > 0 && !ev.Thorough() {
+				break
 			}
 			for pos := 0; pos < len(e.pfx); pos++ {
 				if !ev.Mine(pos) {
